@@ -262,7 +262,38 @@ def _target_derived_keys(repo) -> Dict[str, Set[str]]:
     return out
 
 
+# legacy block samplers whose `step` may ignore the block's current value, with the reason
+LEGACY_STATELESS_STEP = {
+    "cuqi/sampler/_conjugate.py:Conjugate": "closed-form draw from the exact conditional (Gamma): no solver, no dependence on the current value",
+    "cuqi/sampler/_conjugate_approx.py:ConjugateApprox": "closed-form draw from the approximate conditional (Gamma): no solver, no dependence on the current value",
+}
+
+
+def _legacy_steps_start_from_current(chk, repo):
+    """Every legacy sampler's `step(x)` starts the transition at x: the generic Sampler.step stores x as x0 before sampling; an override either
+    lets its current-value parameter flow into the body or is a tabled closed-form conditional draw."""
+    n = 0
+    for ci in repo.classes_in("cuqi/sampler/"):
+        fn = ci.methods.get("step")
+        if fn is None or ci.qual == LG:
+            continue
+        n += 1
+        inst = f"{ci.qual}.step"
+        params = func_params(fn)
+        cur = params[1] if len(params) > 1 else None
+        reads = cur is not None and any(isinstance(x, ast.Name) and x.id == cur and isinstance(x.ctx, ast.Load) for x in ast.walk(fn))
+        if ci.qual in LEGACY_STATELESS_STEP:
+            chk.add("C09-R3", inst, True, site(repo, fn), f"tabled state-free step: {LEGACY_STATELESS_STEP[ci.qual]}", "", fn)
+            continue
+        chk.add("C09-R3", inst, reads, site(repo, fn), f"the transition reads the block's current value `{cur}`",
+                f"step ignores the current value `{cur}` handed over by the Gibbs sweep: the block's transition (e.g. a truncated inner solve) is started from the sampler's "
+                f"construction-time default instead of the block's current value", fn)
+    if n < 3:
+        raise AnchorError(f"legacy step methods: found {n}, expected at least 3 (Sampler, Conjugate, ConjugateApprox)")
+
+
 def _legacy(chk, repo):
+    _legacy_steps_start_from_current(chk, repo)
     from .common import canon_fn, pmatch
     from ..pattern import norm as pn
     ci = repo.cls(LG)
